@@ -20,7 +20,7 @@ RULE = ("pairs T n A lo hi clo chi: digest over every box B with both corners in
         "[-3,3] (int) / [0,6] (unsigned) for n = 1 and n = 2 = all pairs of boxes x all lattice points; quick: all pairs for n = 1, "
         "all pairs with corners in [-2,2] / [0,4] and a seeded sample of A against all B for n = 2. unary: every box, digest over all "
         "shrink/stretch vectors and extend-by-point of the lattice. 3-D and large/extreme coordinates are seeded random. "
-        "progs T n A B V k: digest over all 28^k statement sequences of length k on the objects A, B, V (assignments through the mutable "
+        "progs T n A B V k: digest over all 30^k statement sequences of length k on the objects A, B, V (assignments through the mutable "
         "pos()/max(), aliasing, copies, swaps, A = f(A, ...)); exhaustive for k <= 2 over all 1-D states with corners in [-1,1] / [0,2]. "
         "cmp: the comparison-only functions on all quadruples of values at the ends of each type's range. foldp/foldb: accumulation loops. "
         "An op counts as non-trivial when its first box is non-empty; distinct = distinct op lines.")
@@ -41,7 +41,7 @@ QRANGE = {"i": (-2, 2, -4, 4), "u": (0, 4, 0, 7), "l": (-2, 2, -4, 4), "m": (0, 
 SIGNED = {"i": True, "u": False, "l": True, "m": False}
 BITS = {"i": 32, "u": 32, "l": 64, "m": 64}
 INSTRS = ["pv", "mv", "pm", "mp", "pb", "mb", "pbm", "sw", "ss", "sc", "cp", "sa", "mo", "sm",
-          "xi", "xb", "xv", "xm", "sh", "st", "shp", "stm", "ni", "ps", "ce", "px", "vp", "vm"]
+          "xi", "xb", "xv", "xm", "sh", "st", "shp", "stm", "ni", "ps", "ce", "px", "vp", "vm", "xa", "xe"]
 
 
 def vs(v):
@@ -312,7 +312,7 @@ def _batches(rng, tier):
             sts = [r.choice(sts) for _ in range(30)]
         ops += [progs_op(T, 1, st, k) for st in sts for k in ((0, 1, 2) if full else (2,))]
         yield Batch(f"progs-{T}01", ops, exhaustive=full,
-                    note="all statement sequences of length <= 2 (28 statements: assignment through the mutable pos()/max(), aliasing within the "
+                    note="all statement sequences of length <= 2 (30 statements: assignment through the mutable pos()/max(), aliasing within the "
                          "object, copy/move/swap incl. self, A = f(A, ...), no_init, (pos,size) constructor) from every 1-D state "
                          "(A, B, V with coordinates in [-1,1] / [0,2])" + ("" if full else " - seeded sample of the states"))
         ops = []
